@@ -1,0 +1,11 @@
+// Add-only test shim (build tag verif): constants of the container format.
+
+//go:build verif
+// +build verif
+
+package xflate
+
+// VerifConsts returns the footer magic, the end block, and the defaults.
+func VerifConsts() (magicBytes, end []byte, chunkSize, indexSize int64) {
+	return append([]byte{}, magic[:]...), append([]byte{}, endBlock...), DefaultChunkSize, DefaultIndexSize
+}
